@@ -157,6 +157,44 @@ type hashAppRec struct {
 func (in *Interp) recordHashApp(name string, t *Term) {
 	l, _ := in.extra["hashapps"].([]hashAppRec)
 	in.extra["hashapps"] = append(l, hashAppRec{name, t})
+	// once the harness has asked for the ideal-hash assumptions they also cover every hash computed
+	// later on the path (e.g. inside a verifier): add the pairwise axioms for the new application
+	if mode, ok := in.extra["idealhash"].(int); ok {
+		ax := in.pairAxioms(len(l), mode)
+		if !ax.IsTrue() {
+			in.addPC(ax, true)
+		}
+	}
+}
+
+// pairAxioms returns the ideal-hash axioms between application k and all earlier ones
+// (mode 1: collision freedom; mode 2: plus node-hash separation).
+func (in *Interp) pairAxioms(k, mode int) *Term {
+	st := in.st
+	l, _ := in.extra["hashapps"].([]hashAppRec)
+	ax := st.True
+	P := st.ConstBig(256, feltP)
+	lim := st.Const(256, 251)
+	for i := 0; i < k; i++ {
+		a, b := l[i], l[k]
+		if a.name != b.name || len(a.t.args) != len(b.t.args) {
+			if strings.HasPrefix(a.name, "pos") && strings.HasPrefix(b.name, "pos") {
+				ax = st.BAnd(ax, st.BNot(st.Eq(a.t, b.t)))
+			}
+			continue
+		}
+		same := st.True
+		for j := range a.t.args {
+			same = st.BAnd(same, st.Eq(a.t.args[j], b.t.args[j]))
+		}
+		ax = st.BAnd(ax, st.Implies(st.Eq(a.t, b.t), same))
+		if mode == 2 && (a.name == "ped" || a.name == "pos2") {
+			d := in.feltSubMod(a.t, b.t)
+			far := st.BAnd(st.Cmp(OpULt, lim, d), st.Cmp(OpULt, lim, st.Bin(OpSub, P, d)))
+			ax = st.BAnd(ax, st.BOr(st.Eq(a.t, b.t), far))
+		}
+	}
+	return ax
 }
 
 // collisionFreeAxioms: for every pair of recorded applications of the same symbol: equal outputs ⇒ equal inputs.
